@@ -1,0 +1,8 @@
+//go:build verif
+
+// Contracts for package fsm, checked by /verif/govc (comment-only; compiled only with -tags verif).
+package fsm
+
+//@ func (*StateMachine).Height
+//@   pure
+//@   ensures[getter] result == s.height
